@@ -13,24 +13,33 @@ import os
 from common import CORPUS_DIR, call, shrink_list
 
 RULE = ("a universe of 12-20 objects (lanelets with sign/light references, traffic signs, traffic lights, intersections with "
-        "0-3 incoming elements (each with 0-2 incoming lanelets / straight successors taken mostly from the universe's lanelets, optional crossings), obstacles of the four roles, 1-3 lanelet networks with own members) whose ids are drawn from a "
+        "0-3 incoming elements (each with 0-2 incoming lanelets / straight successors taken mostly from the universe's lanelets, optional crossings), obstacles of the four roles with or without lanelet assignment, 1-3 lanelet networks with own members built by add_* or by the alternative constructors; optional constructor arguments per harness/c09_dimensions.py; ids partly numpy.int64) whose ids are drawn from a "
         "pool of 6-12 numbers so that they collide; a history of up to 40 (thorough: up to 400) operations chosen online from "
         "add_objects (single / list / LaneletNetwork / wrong type), remove_obstacle|lanelet|traffic_sign|traffic_light|"
-        "intersection (single and list forms), replace_lanelet_network, generate_object_id, biased towards removing contained "
+        "intersection (single and list forms), replace_lanelet_network, erase_lanelet_network, remove_hanging_lanelet_members, generate_object_id, empty-list forms, setters on lanelet references (also of contained lanelets), id re-assignment of objects outside the scenario, interleaved read-only queries and neutral operations, biased towards removing contained "
         "objects and adding removed ones again; a case is one (universe, history); non-trivial = every case (each has >= 1 add "
         "and is checked after every step); distinct = distinct canonical JSON")
 ASSUMPTIONS = [
     "remove_obstacle looks an obstacle up by id: steps that hand it an obstacle whose id is held by a contained obstacle of "
     "ANOTHER role are skipped (the code then reads role-specific attributes of the argument and raises AttributeError "
     "before anything changes; counted as excluded) — every other removal argument, contained or not, is exercised",
-    "obstacles are generated without lanelet assignment (initial_shape_lanelet_ids=None, no prediction), so the "
-    "obstacle-on-lanelet registries (property C07) stay out of the way",
+    "static / dynamic obstacles carry lanelet assignments (initial_shape/center_lanelet_ids) in part of the cases; add_objects then "
+    "registers them on their lanelets AFTER storing them and raises AttributeError for a lanelet that does not exist (modelled: "
+    "Obj.obstacleOn; oracle: the obstacle must be in, its id reserved, the pool exact — the exception itself is property C07's "
+    "business); obstacles have no prediction",
+    "ids of objects are re-assigned (setters) only while the object is outside the scenario and outside every network; re-assigning "
+    "the id of a contained object, or editing the scenario's own LaneletNetwork through network-level add_* / remove_*, bypasses the "
+    "id pool by design and is outside the property's quantifier (steps of that kind are skipped)",
+    "interleaved read-only queries and neutral operations (assign_obstacles_to_lanelets, translate_rotate) may raise for reasons of "
+    "their own; only the invariant (ids unique, pool exact) is judged after them",
     "a lanelet object is member of at most one network at a time (steps that would alias one mutable Lanelet into two "
     "networks are skipped): the model passes lanelets by value",
 ]
 TRUSTED = ["Scenario._id_set / _id_counter are read (never written) by the harness for the comparison and for the exactness "
            "clause; everything else is observed through public accessors"]
 REQUIRED_BUCKETS = [
+    "op:query", "op:neutral", "op:mutate", "op:set_refs", "set_refs-on-contained", "op:erase", "op:rm_hanging", "empty-list-form",
+    "add-fails-halfway", "numpy-id", "network-from-alt-constructor", "obstacle-with-lanelet-assignment",
     "op:add", "op:add_list", "op:add[network]", "op:add_invalid", "op:rm_obstacle", "op:rm_obstacle_list", "op:rm_lanelet",
     "op:rm_lanelet_list", "op:rm_sign", "op:rm_sign_list", "op:rm_light", "op:rm_light_list", "op:rm_inter",
     "op:rm_inter_list", "op:replace_net", "op:gen", "add-rejected", "add-rejected[inter]", "add-rejected[network]",
@@ -56,27 +65,47 @@ def build(spec, built):
     from commonroad.scenario.state import InitialState
     from commonroad.scenario.traffic_light import TrafficLight
     from commonroad.scenario.traffic_sign import TrafficSign, TrafficSignElement, TrafficSignIDGermany
+    from commonroad.common.common_lanelet import LineMarking, StopLine
     k, i = spec["k"], spec.get("id")
+    npi = (lambda v: np.int64(v)) if spec.get("np") else (lambda v: v)     # numpy integer ids where the code admits them
     if k == "lanelet":
-        x = float(i)
+        x = float(i % 1000)
+        sl = spec.get("stop_line")
+        stop = None if sl is None else StopLine(np.array([x, 0.0]), np.array([x, 1.0]), LineMarking.SOLID,
+                                                traffic_sign_ref=set(sl["signs"]), traffic_light_ref=set(sl["lights"]))
+        ts, tl = spec["signs"], spec["lights"]
         return Lanelet(np.array([[x, 1.0], [x + 1, 1.0]]), np.array([[x, 0.5], [x + 1, 0.5]]),
-                       np.array([[x, 0.0], [x + 1, 0.0]]), i, traffic_signs=set(spec["signs"]),
-                       traffic_lights=set(spec["lights"]))
+                       np.array([[x, 0.0], [x + 1, 0.0]]), npi(i), predecessor=spec.get("pred"), successor=spec.get("succ"),
+                       adjacent_left=spec.get("adj_left"), adjacent_left_same_direction=None if spec.get("adj_left") is None else True,
+                       stop_line=stop, traffic_signs=None if (not ts and spec.get("none_refs")) else set(ts),
+                       traffic_lights=None if (not tl and spec.get("none_refs")) else set(tl))
     if k == "sign":
-        return TrafficSign(i, [TrafficSignElement(TrafficSignIDGermany.MAX_SPEED, ["10"])], set(), np.array([0.0, 0.0]))
+        return TrafficSign(i, [TrafficSignElement(TrafficSignIDGermany.MAX_SPEED, ["10"])], set(spec.get("first", [])),
+                           np.array([0.0, 0.0]), virtual=bool(spec.get("virtual", False)))
     if k == "light":
-        return TrafficLight(i, np.array([0.0, 0.0]))
+        return TrafficLight(i, np.array([0.0, 0.0]), active=bool(spec.get("active", True)))
     if k == "inter":
-        lan = spec.get("inc_lanelets") or [[] for _ in spec["incs"]]
-        suc = spec.get("inc_succ") or [[] for _ in spec["incs"]]
-        return Intersection(i, [IntersectionIncomingElement(j, incoming_lanelets=set(a), successors_straight=set(b))
-                                for j, a, b in zip(spec["incs"], lan, suc)], crossings=set(spec.get("crossings", [])))
-    if k == "static":
-        return StaticObstacle(i, ObstacleType.PARKED_VEHICLE, Rectangle(2, 1),
-                              InitialState(position=np.array([0.0, 0.0]), orientation=0.0, time_step=0))
-    if k == "dynamic":
-        return DynamicObstacle(i, ObstacleType.CAR, Rectangle(2, 1),
-                               InitialState(position=np.array([0.0, 0.0]), orientation=0.0, velocity=0.0, time_step=0))
+        n = len(spec["incs"])
+        lan = spec.get("inc_lanelets") or [[] for _ in range(n)]
+        suc = spec.get("inc_succ") or [[] for _ in range(n)]
+        rig = spec.get("inc_right") or [[] for _ in range(n)]
+        lef = spec.get("inc_left") or [[] for _ in range(n)]
+        lof = spec.get("inc_left_of") or [None for _ in range(n)]
+        cr = spec.get("crossings", [])
+        return Intersection(npi(i), [IntersectionIncomingElement(npi(j), incoming_lanelets=set(a) if a or not spec.get("none_refs") else None,
+                                                                 successors_right=set(c), successors_straight=set(b),
+                                                                 successors_left=set(d), left_of=e)
+                                     for j, a, b, c, d, e in zip(spec["incs"], lan, suc, rig, lef, lof)],
+                            crossings=None if (not cr and spec.get("none_refs")) else set(cr))
+    if k in ("static", "dynamic"):
+        on = None if spec.get("on") is None else set(spec["on"])
+        ce = None if spec.get("center") is None else set(spec["center"])
+        st = InitialState(position=np.array([0.0, 0.0]), orientation=0.0, velocity=0.0, time_step=spec.get("t0", 0))
+        if k == "static":
+            return StaticObstacle(i, ObstacleType.PARKED_VEHICLE, Rectangle(2, 1), st, initial_center_lanelet_ids=ce,
+                                  initial_shape_lanelet_ids=on)
+        return DynamicObstacle(i, ObstacleType.CAR, Rectangle(2, 1), st, initial_center_lanelet_ids=ce,
+                               initial_shape_lanelet_ids=on)
     if k == "env":
         return EnvironmentObstacle(i, ObstacleType.BUILDING, Rectangle(2, 1))
     if k == "phantom":
@@ -87,13 +116,22 @@ def build(spec, built):
             o = built[m]
             mk = built_kind(o)
             if mk == "lanelet":
-                n.add_lanelet(o)
+                n.add_lanelet(o, rtree=not spec.get("no_rtree", False))
             elif mk == "sign":
                 n.add_traffic_sign(o, set())
             elif mk == "light":
                 n.add_traffic_light(o, set())
             elif mk == "inter":
                 n.add_intersection(o)
+        ctor = spec.get("ctor", "plain")        # alternative constructors: they copy their input
+        if ctor == "from_list":
+            return LaneletNetwork.create_from_lanelet_list(n.lanelets, cleanup_ids=bool(spec.get("cleanup_ids", True)))
+        if ctor == "from_network":
+            try:    # raises for a lanelet that refers to a sign / light the source network does not have (dangling
+                    # references: property C10's subject) — then the plain network is used
+                return LaneletNetwork.create_from_lanelet_network(n, cleanup_ids=bool(spec.get("cleanup_ids", True)))
+            except (AssertionError, AttributeError, KeyError):
+                return n
         return n
     raise ValueError(k)
 
@@ -116,15 +154,15 @@ def ids_of(o):
     """The ids an object brings into a scenario (from the object's public attributes)."""
     k = built_kind(o)
     if k == "lanelet":
-        return [o.lanelet_id]
+        return [int(o.lanelet_id)]
     if k == "sign":
-        return [o.traffic_sign_id]
+        return [int(o.traffic_sign_id)]
     if k == "light":
-        return [o.traffic_light_id]
+        return [int(o.traffic_light_id)]
     if k == "inter":
-        return [o.intersection_id] + [inc.incoming_id for inc in o.incomings]
+        return [int(o.intersection_id)] + [int(inc.incoming_id) for inc in o.incomings]
     if k in OBST:
-        return [o.obstacle_id]
+        return [int(o.obstacle_id)]
     if k == "network":
         out = []
         for m in o.lanelets + o.traffic_signs + o.traffic_lights + o.intersections:
@@ -153,24 +191,36 @@ def ser(o):
     """Current value of an object as the model sees it."""
     k = built_kind(o)
     if k == "lanelet":
-        return {"k": k, "id": o.lanelet_id, "signs": sorted(o.traffic_signs), "lights": sorted(o.traffic_lights)}
+        return {"k": k, "id": int(o.lanelet_id), "signs": sorted(int(x) for x in o.traffic_signs),
+                "lights": sorted(int(x) for x in o.traffic_lights)}
     if k == "inter":
-        return {"k": k, "id": o.intersection_id, "incs": [inc.incoming_id for inc in o.incomings]}
+        return {"k": k, "id": int(o.intersection_id), "incs": [int(inc.incoming_id) for inc in o.incomings]}
     if k == "network":
-        return {"k": k, "lanelets": [ser(x) for x in o.lanelets], "signs": [x.traffic_sign_id for x in o.traffic_signs],
-                "lights": [x.traffic_light_id for x in o.traffic_lights], "inters": [ser(x) for x in o.intersections]}
+        return {"k": k, "lanelets": [ser(x) for x in o.lanelets], "signs": [int(x.traffic_sign_id) for x in o.traffic_signs],
+                "lights": [int(x.traffic_light_id) for x in o.traffic_lights], "inters": [ser(x) for x in o.intersections]}
     if k == "invalid":
         return {"k": k}
+    if k in ("static", "dynamic") and o.initial_shape_lanelet_ids is not None:
+        # the lanelet assignment decides whether add_objects fails half-way (AttributeError after the obstacle is in)
+        return {"k": k + "_on", "id": ids_of(o)[0], "on": sorted(int(x) for x in o.initial_shape_lanelet_ids)}
     return {"k": k, "id": ids_of(o)[0]}
+
+
+def unresolved(o, lanelet_ids):
+    """add_objects of this obstacle raises AttributeError after storing it: it is assigned to a lanelet that does not
+    exist while the network has lanelets (registration on lanelets: property C07's business, here only a failing step)."""
+    return (built_kind(o) in ("static", "dynamic") and o.initial_shape_lanelet_ids is not None and len(lanelet_ids) > 0
+            and any(int(x) not in lanelet_ids for x in o.initial_shape_lanelet_ids))
 
 
 def observe(sc):
     """Canonical observable state for the lock-step comparison (same shape as Driver/C09.stJ, lists sorted)."""
     c = contained(sc)
-    return {"idset": sorted(sc._id_set), "counter": sc._id_counter,
-            "lanelets": sorted([o.lanelet_id, sorted(o.traffic_signs), sorted(o.traffic_lights)] for o in c["lanelet"]),
-            "signs": sorted(o.traffic_sign_id for o in c["sign"]), "lights": sorted(o.traffic_light_id for o in c["light"]),
-            "inters": sorted([o.intersection_id, [i.incoming_id for i in o.incomings]] for o in c["inter"]),
+    return {"idset": sorted(int(x) for x in sc._id_set), "counter": None if sc._id_counter is None else int(sc._id_counter),
+            "lanelets": sorted([int(o.lanelet_id), sorted(int(x) for x in o.traffic_signs), sorted(int(x) for x in o.traffic_lights)]
+                               for o in c["lanelet"]),
+            "signs": sorted(int(o.traffic_sign_id) for o in c["sign"]), "lights": sorted(int(o.traffic_light_id) for o in c["light"]),
+            "inters": sorted([int(o.intersection_id), [int(i.incoming_id) for i in o.incomings]] for o in c["inter"]),
             "static": sorted(o.obstacle_id for o in c["static"]), "dynamic": sorted(o.obstacle_id for o in c["dynamic"]),
             "env": sorted(o.obstacle_id for o in c["env"]), "phantom": sorted(o.obstacle_id for o in c["phantom"])}
 
@@ -198,7 +248,7 @@ def lanelet_refs(r, incs, lanelet_ids, pid):
 def gen_universe(r):
     pool = list(range(r.choice([6, 7, 8, 10, 12])))
     if r.random() < 0.3:
-        pool[-1] = r.choice([0, 57, 10 ** 6])
+        pool[-1] = r.choice([0, 57, 10 ** 6, 2 ** 40 + 1])
     pid = lambda: r.choice(pool)  # noqa: E731
     sign_ids = [pid() for _ in range(r.randint(2, 3))]
     light_ids = [pid() for _ in range(r.randint(1, 3))]
@@ -241,6 +291,57 @@ def gen_universe(r):
                     uni.append({"k": k, "id": take()})
                 members.append(len(uni) - 1)
         uni.append({"k": "network", "members": members})
+    return decorate(r, uni, pid)
+
+
+def decorate(r, uni, pid):
+    """Optional constructor arguments and attributes (DIMENSIONS): each present / absent / empty with some probability."""
+    lan_ids = [u["id"] for u in uni if u["k"] == "lanelet"] or [0]
+    some = lambda src, p_empty=0.5: ([] if r.random() < p_empty else  # noqa: E731
+                                     sorted(set(r.choice(src) if r.random() < 0.8 else pid() for _ in range(r.choice([1, 1, 2])))))
+    for u in uni:
+        k = u["k"]
+        if k == "lanelet":
+            if r.random() < 0.15:
+                u["np"] = True
+            if r.random() < 0.3:
+                u["stop_line"] = {"signs": some([x["id"] for x in uni if x["k"] == "sign"] or [0]),
+                                  "lights": some([x["id"] for x in uni if x["k"] == "light"] or [0])}
+            if r.random() < 0.3:
+                u["pred"], u["succ"] = some(lan_ids), some(lan_ids)
+            if r.random() < 0.2:
+                u["adj_left"] = r.choice(lan_ids)
+            if r.random() < 0.2:
+                u["none_refs"] = True
+        elif k == "sign":
+            u["first"] = some(lan_ids, 0.6)
+            u["virtual"] = r.random() < 0.2
+        elif k == "light":
+            u["active"] = r.random() < 0.8
+        elif k == "inter":
+            n = len(u["incs"])
+            u["inc_right"] = [some(lan_ids, 0.7) for _ in range(n)]
+            u["inc_left"] = [some(lan_ids, 0.7) for _ in range(n)]
+            u["inc_left_of"] = [r.choice(u["incs"]) if r.random() < 0.2 else None for _ in range(n)]
+            if r.random() < 0.15:
+                u["np"] = True
+            if r.random() < 0.15:
+                u["none_refs"] = True
+        elif k in ("static", "dynamic"):
+            if r.random() < 0.4:      # lanelet assignment: mostly to lanelets of the universe (may or may not be contained)
+                u["on"] = some(lan_ids, 0.2)
+            if r.random() < 0.25:
+                u["center"] = some(lan_ids, 0.2)
+            if r.random() < 0.2:
+                u["t0"] = r.choice([0, 3])
+        elif k == "network":
+            if r.random() < 0.15:
+                u["no_rtree"] = True
+            c = r.random()
+            if c < 0.12:
+                u["ctor"], u["cleanup_ids"] = "from_network", r.random() < 0.6
+            elif c < 0.2 and all(uni[m]["k"] == "lanelet" for m in u["members"]):
+                u["ctor"], u["cleanup_ids"] = "from_list", r.random() < 0.6
     return uni
 
 
@@ -306,6 +407,95 @@ class Run:
         self.executed = []
         self.dead = False                 # an oracle failure was reported: later steps would only repeat it
 
+    # -- operations that the id bookkeeping must not care about (queries, geometry, edits of objects outside the scenario)
+    def step_aux(self, op, before):
+        import numpy as np
+        ctx, sc = self.ctx, self.sc
+        name = op["op"]
+        cid = {id(x) for x in all_objs(before["cont"])}
+        mop = None
+        if name == "query":
+            k = op["arg"]
+            q = {"obstacle_by_id": lambda: sc.obstacle_by_id(k), "by_role": lambda: sc.obstacles_by_role_and_type(),
+                 "obstacles": lambda: [sc.obstacles, sc.static_obstacles, sc.dynamic_obstacles, sc.environment_obstacle,
+                                       sc.phantom_obstacle],
+                 "str": lambda: str(sc), "find": lambda: [sc.lanelet_network.find_lanelet_by_id(k),
+                                                          sc.lanelet_network.find_traffic_sign_by_id(k),
+                                                          sc.lanelet_network.find_traffic_light_by_id(k),
+                                                          sc.lanelet_network.find_intersection_by_id(k)],
+                 "inc_map": lambda: sc.lanelet_network.map_inc_lanelets_to_intersections,
+                 "occupancies": lambda: sc.occupancies_at_time_step(0), "deepcopy": lambda: copy.deepcopy(sc),
+                 "eq": lambda: sc == copy.deepcopy(sc), "is_used": lambda: sc._is_object_id_used(k),
+                 "referenced": lambda: [sc.lanelet_network.get_traffic_sign_referenced_lanelets(k),
+                                        sc.lanelet_network.get_traffic_lights_referenced_lanelets(k)],
+                 "proximity": lambda: sc.lanelet_network.lanelets_in_proximity(np.array([float(k), 0.5]), 2.0)}[op["q"]]
+            call(q)
+            site = f"query[{op['q']}]"
+            ctx.tag("op:query")
+        elif name == "neutral":
+            f = {"assign": lambda: sc.assign_obstacles_to_lanelets(), "assign_center": lambda: sc.assign_obstacles_to_lanelets(use_center_only=True),
+                 "assign_some": lambda: sc.assign_obstacles_to_lanelets(time_steps=[0], obstacle_ids={op["arg"]}),
+                 "translate": lambda: sc.translate_rotate(np.array([1.0, -2.0]), 0.3)}[op["q"]]
+            call(f)
+            site = f"neutral[{op['q']}]"
+            ctx.tag("op:neutral")
+        elif name == "mutate":
+            o, kind = self.objs[op["o"]], self.kinds[op["o"]]
+            member = kind != "network" and any(x is o for n in self.nets for x in n.lanelets + n.traffic_signs + n.traffic_lights +
+                                               n.intersections)
+            if id(o) in cid or member or kind == "network":
+                ctx.tag("skipped-mutation-of-contained")     # ids of contained objects are not re-assigned (ASSUMPTIONS)
+                return False
+            what, v = op["what"], op.get("v")
+            if what == "id":
+                attr = {"lanelet": "lanelet_id", "sign": "traffic_sign_id", "light": "traffic_light_id",
+                        "inter": "intersection_id"}.get(kind, "obstacle_id")
+                if kind == "phantom":
+                    return False
+                call(setattr, o, attr, v)            # obstacle ids are immutable: the setter only warns
+            elif kind == "inter" and what == "inc_id" and o.incomings:
+                call(setattr, o.incomings[op["j"] % len(o.incomings)], "incoming_id", v)
+            elif kind == "inter" and what == "incomings_same":
+                o.incomings = o.incomings                 # the same list handed back to the setter
+            elif kind == "inter" and what == "incomings_rev":
+                o.incomings = list(reversed(o.incomings))
+            elif kind == "inter" and what == "incomings_drop" and o.incomings:
+                o.incomings = o.incomings[:-1]
+            else:
+                return False
+            site = f"mutate[{kind}.{what}]"
+            ctx.tag("op:mutate")
+        else:  # set_refs: sign / light references of a lanelet, in or outside the scenario
+            o = self.objs[op["o"]]
+            mode = op["mode"]
+            if mode == "assign":
+                o.traffic_signs = set(op["signs"])
+                o.traffic_lights = set(op["lights"])
+            elif mode == "same":
+                o.traffic_signs = o.traffic_signs
+                o.traffic_lights = o.traffic_lights
+            else:
+                for k in op["signs"]:
+                    o.add_traffic_sign_to_lanelet(k)
+                for k in op["lights"]:
+                    o.add_traffic_light_to_lanelet(k)
+            site = "lanelet.traffic_signs/lights="
+            ctx.tag("op:set_refs")
+            if id(o) in cid:
+                ctx.tag("set_refs-on-contained")
+                v = ser(o)
+                mop = {"op": "set_refs", "id": v["id"], "signs": v["signs"], "lights": v["lights"]}
+        self.executed.append(op)
+        after = snapshot(sc)
+        if mop is not None:
+            self.model_ops.append(mop)
+            self.impl.append({"out": "ok", "st": observe(sc)})
+        nfail = len(ctx.failures)
+        self.oracle_invariant(site, after, ("ok", None))
+        if len(ctx.failures) > nfail:
+            self.dead = True
+        return True
+
     # -- helpers
     def fail(self, site, obs, what):
         self.ctx.fail(f"C09/{site}/{obs}", what, {"universe": self.uni, "ops": list(self.executed)})
@@ -337,6 +527,8 @@ class Run:
             ctx.tag("skipped-alias")
             return False
         before = snapshot(sc)
+        if name in ("query", "neutral", "mutate", "set_refs"):
+            return self.step_aux(op, before)
         refs = op.get("refs")
         lanelet_ids = None if refs is None else set(refs)
         mrefs = [] if refs is None else sorted(set(refs))
@@ -365,6 +557,17 @@ class Run:
             mop = {"op": "gen"}
             site = "generate_object_id"
             ctx.tag("op:gen")
+        elif name == "erase":
+            f = sc.erase_lanelet_network
+            mop = {"op": "erase"}
+            site = "erase_lanelet_network"
+            ctx.tag("op:erase")
+        elif name == "rm_hanging":
+            args = [self.objs[i] for i in op["os"]]
+            f = lambda: sc.remove_hanging_lanelet_members(args)  # noqa: E731
+            mop = {"op": "rm_hanging", "ls": [ser(x) for x in args]}
+            site = "remove_hanging_lanelet_members"
+            ctx.tag("op:rm_hanging")
         elif name == "replace_net":
             o = self.objs[op["o"]]
             f = lambda: sc.replace_lanelet_network(o)  # noqa: E731
@@ -402,13 +605,23 @@ class Run:
             ctx.tag("op:" + name)
         # ---- does this step remove every incoming lanelet of an incoming element of a contained intersection?
         gone_lanelets = None
-        if name.startswith("rm_lanelet") and op["refd"]:
+        if (name.startswith("rm_lanelet") and op["refd"]) or name == "rm_hanging":
             gone_lanelets = {x.lanelet_id for x in args}
-        elif name == "replace_net":
+        elif name in ("replace_net", "erase"):
             gone_lanelets = {x.lanelet_id for x in before["cont"]["lanelet"]}
         if gone_lanelets is not None and any(len(inc.incoming_lanelets) > 0 and set(inc.incoming_lanelets) <= gone_lanelets
                                              for it in before["cont"]["inter"] for inc in it.incomings):
             ctx.tag("lanelets-of-an-incoming-all-removed")
+        if name.endswith("_list") and not op["os"] or (name == "rm_hanging" and not op["os"]):
+            ctx.tag("empty-list-form")
+        if name == "add":
+            spec = self.uni[op["o"]]
+            if spec.get("np"):
+                ctx.tag("numpy-id")
+            if spec.get("ctor", "plain") != "plain":
+                ctx.tag("network-from-alt-constructor")
+            if kind in ("static", "dynamic") and o.initial_shape_lanelet_ids is not None:
+                ctx.tag("obstacle-with-lanelet-assignment")
         # ---- run on the real code
         self.executed.append(op)
         res = call(f)
@@ -429,6 +642,12 @@ class Run:
             self.oracle_gen(site, res, before, after)
         elif name == "replace_net":
             self.oracle_replace(site, o, res, before, after)
+            self.oracle_removed(site, before, after, op)
+        elif name in ("erase", "rm_hanging"):
+            if res[0] != "ok":
+                self.fail(site, f"raises-{res[1]}", f"{site} raises {res[2]}")
+            elif name == "erase" and any(after["cont"][k] for k in NETKINDS):
+                self.fail(site, "network-not-empty", f"{site} returned but the network still has members (ids {sorted(after['ids'])})")
             self.oracle_removed(site, before, after, op)
         else:
             self.oracle_removal(site, kind, args, res, before, after, op)
@@ -488,6 +707,12 @@ class Run:
                 if kind == "inter" and self.last_vanished_by == "rm_inter_list":
                     self.ctx.tag("re-add-after-list-remove[inter]")
             self.ctx.tag("add-ok")
+            halfway = (res[0] != "ok" and res[1] == "attr" and kind in ("static", "dynamic")
+                       and unresolved(o, {x.lanelet_id for x in before["cont"]["lanelet"]}))
+            if halfway:
+                # registration on a missing lanelet raised AFTER the obstacle was stored: the id bookkeeping has to be right
+                self.ctx.tag("add-fails-halfway")
+                res = ("ok", None)
             if res[0] != "ok":
                 obs = "removed-object-cannot-be-added-again" if again else "free-id-rejected"
                 self.fail(site, obs, f"{site} with ids {ids} raises {res[2]} although no contained object uses them "
@@ -513,8 +738,10 @@ class Run:
 
     def oracle_add_list(self, site, objs, res, before, after):
         used = set(before["ids"])
+        lan = {x.lanelet_id for x in before["cont"]["lanelet"]}
         expect_new = []
         failed_at = None
+        halfway_at = None
         for j, o in enumerate(objs):
             ids = ids_of(o)
             if len(set(ids)) != len(ids) or set(ids) & used:
@@ -522,6 +749,16 @@ class Run:
                 break
             used |= set(ids)
             expect_new.append(o)
+            if built_kind(o) == "lanelet":
+                lan.add(o.lanelet_id)
+            if unresolved(o, lan):
+                halfway_at = j        # stored, then AttributeError while registering it on its lanelets: the list stops here
+                break
+        if halfway_at is not None and failed_at is None:
+            self.ctx.tag("add-fails-halfway")
+            if res[0] == "ok" or res[1] != "attr":
+                self.fail(site, "unexpected-outcome", f"{site}: element {halfway_at} is assigned to a missing lanelet, got {res}")
+            res = ("ok", None)
         now = {id(x) for x in all_objs(after["cont"])}
         was = {id(x) for x in all_objs(before["cont"])}
         if failed_at is None:
@@ -535,7 +772,7 @@ class Run:
                 self.fail(site, "used-id-accepted", f"{site}: element {failed_at} has an id in use but the call succeeded")
             elif res[1] != "value":
                 self.fail(site, f"raises-{res[1]}", f"{site}: raises {res[2]} instead of ValueError")
-        if res[0] == "ok" or failed_at is not None:
+        if res[0] == "ok" or failed_at is not None or halfway_at is not None:
             want = was | {id(x) for x in expect_new}
             if now != want:
                 self.fail(site, "wrong-objects-added", f"{site}: objects contained afterwards are not 'before + the elements in "
@@ -592,7 +829,10 @@ class Run:
         self.ctx.tag("readd-checked-on-copy")
         sc2, cand2 = copy.deepcopy((self.sc, cand))
         for g in cand2:
+            lan2 = {x.lanelet_id for x in sc2.lanelet_network.lanelets}
             r = call(sc2.add_objects, g)
+            if r[0] != "ok" and r[1] == "attr" and unresolved(g, lan2) and any(x is g for x in sc2.obstacles):
+                continue            # stored, the AttributeError comes from registering it on a lanelet that is gone
             if r[0] != "ok":
                 self.fail(site, "removed-object-cannot-be-added-again",
                           f"{built_kind(g)} with ids {ids_of(g)} left the scenario by {site} but adding it again raises {r[2]} "
@@ -640,6 +880,34 @@ def choose_op(r, run):
         run.ctx.tag("size>=6")
     if run.last_vanished and r.random() < 0.6:
         return {"op": "add", "o": r.choice(run.last_vanished), "refs": None}
+    # ---- the new dimensions (generator audit): each with a small share of the steps
+    a = r.random()
+    lan_all = [i for i, k in enumerate(kinds) if k == "lanelet"]
+    if a < 0.06:
+        return {"op": "query", "q": r.choice(["obstacle_by_id", "by_role", "obstacles", "str", "find", "inc_map", "occupancies",
+                                              "deepcopy", "eq", "is_used", "referenced", "proximity"]), "arg": r.choice(pool)}
+    if a < 0.08:
+        return {"op": "neutral", "q": r.choice(["assign", "assign_center", "assign_some", "translate"]), "arg": r.choice(pool)}
+    if a < 0.11 and idx_out:
+        i = r.choice(idx_out)
+        what = r.choice(["id", "id", "inc_id", "incomings_same", "incomings_rev", "incomings_drop"]) if kinds[i] == "inter" else "id"
+        return {"op": "mutate", "o": i, "what": what, "v": r.choice(pool), "j": r.randrange(3)}
+    if a < 0.145 and lan_all:
+        in_l = [i for i in lan_all if id(objs[i]) in cid]
+        i = r.choice(in_l if in_l and r.random() < 0.7 else lan_all)
+        return {"op": "set_refs", "o": i, "mode": r.choice(["assign", "assign", "same", "add"]),
+                "signs": sorted(set(r.choice(pool) for _ in range(r.choice([0, 1, 2])))),
+                "lights": sorted(set(r.choice(pool) for _ in range(r.choice([0, 0, 1]))))}
+    if a < 0.16:
+        return {"op": "erase"}
+    if a < 0.18 and lan_all:
+        in_l = [i for i in lan_all if id(objs[i]) in cid]
+        src = in_l if in_l and r.random() < 0.8 else lan_all
+        return {"op": "rm_hanging", "os": r.sample(src, min(len(src), r.choice([1, 1, 2])))}
+    if a < 0.19:      # empty list forms
+        return r.choice([{"op": "add_list", "os": [], "refs": None}, {"op": "rm_obstacle_list", "os": []},
+                         {"op": "rm_lanelet_list", "os": [], "refd": True}, {"op": "rm_sign_list", "os": []},
+                         {"op": "rm_light_list", "os": []}, {"op": "rm_inter_list", "os": []}, {"op": "rm_hanging", "os": []}])
     w = r.random()
     if len(idx_in) < 3 and w > 0.6:
         w = r.random() * 0.4      # keep the scenario populated
@@ -751,7 +1019,19 @@ def gen_case(ctx):
     return case
 
 
+def check_dimensions(ctx):
+    """DIMENSIONS (harness/c09_dimensions.py) against the real signatures: unknown parameter / attribute / method => exit 2."""
+    from common import InfraError
+    import c09_dimensions
+    n, problems = c09_dimensions.check_table()
+    if problems:
+        raise InfraError("C09 dimension table out of date:\n  " + "\n  ".join(problems))
+    ctx.tag("dimension-table-checked")
+    return n
+
+
 def run(ctx):
+    check_dimensions(ctx)
     for p in sorted(glob.glob(os.path.join(CORPUS_DIR, "C09", "*.json"))):
         run_case(ctx, json.load(open(p)))
     for _ in range(ctx.n(1200)):
